@@ -126,7 +126,11 @@ impl Worker {
             {
                 match job {
                     Job::Task(task) => {
-                        let _ = task();
+                        // A panicking job must not take its worker with it: after pool-size
+                        // panics no worker would be left and every later call would block
+                        // forever. The job's result channel is dropped by the unwinding, so
+                        // the caller gets an error.
+                        let _ = std::panic::catch_unwind(std::panic::AssertUnwindSafe(task));
                     }
                     Job::Shutdown => break,
                 }
